@@ -36,6 +36,13 @@ var junks = []junk{
 	{name: "yaml-without-kind", ext: ".yaml", severe: true, marker: "zznokind", content: "apiVersion: v1\nmetadata: {name: zznokind}\n"},
 	{name: "netpol-failing-schema", ext: ".yaml", document: true, severe: true, marker: "zzbadnp", content: "apiVersion: networking.k8s.io/v1\nkind: NetworkPolicy\nmetadata: {name: zzbadnp, namespace: ns1}\nspec:\n  podSelector: {}\n  ingress: not-a-list\n"},
 	{name: "deployment-failing-schema", ext: ".yaml", document: true, severe: true, marker: "zzbaddep", content: "apiVersion: apps/v1\nkind: Deployment\nmetadata: {name: zzbaddep, namespace: ns1}\nspec:\n  replicas: many\n  template: {metadata: {labels: {app: zz}}, spec: {containers: [{name: c, image: x}]}}\n"},
+	{name: "namespace-failing-schema", ext: ".yaml", document: true, severe: true, marker: "zzbadns", content: "apiVersion: v1\nkind: Namespace\nmetadata:\n  name: zzbadns\nspec:\n  finalizers: just-one\n"},
+	{name: "pod-failing-schema", ext: ".yaml", document: true, severe: true, marker: "zzbadpod", content: "apiVersion: v1\nkind: Pod\nmetadata: {name: zzbadpod, namespace: ns1}\nspec:\n  containers: just-one\n"},
+	{name: "service-failing-schema", ext: ".yaml", document: true, severe: true, marker: "zzbadsvc", content: "apiVersion: v1\nkind: Service\nmetadata: {name: zzbadsvc, namespace: ns1}\nspec:\n  selector: {app: b}\n  ports: not-a-list\n"},
+	{name: "ingress-failing-schema", ext: ".yaml", document: true, severe: true, marker: "zzbading", content: "apiVersion: networking.k8s.io/v1\nkind: Ingress\nmetadata: {name: zzbading, namespace: ns1}\nspec:\n  rules: some\n"},
+	{name: "route-failing-schema", ext: ".yaml", document: true, severe: true, marker: "zzbadroute", content: "apiVersion: route.openshift.io/v1\nkind: Route\nmetadata: {name: zzbadroute, namespace: ns1}\nspec:\n  to: [a, b]\n"},
+	{name: "anp-failing-schema", ext: ".yaml", document: true, severe: true, marker: "zzbadanp", content: "apiVersion: policy.networking.k8s.io/v1alpha1\nkind: AdminNetworkPolicy\nmetadata: {name: zzbadanp}\nspec:\n  priority: high\n  subject: {namespaces: {}}\n"},
+	{name: "statefulset-failing-schema", ext: ".yaml", document: true, severe: true, marker: "zzbadss", content: "apiVersion: apps/v1\nkind: StatefulSet\nmetadata: {name: zzbadss, namespace: ns1}\nspec:\n  replicas: [1]\n  template: {metadata: {labels: {app: zz}}, spec: {containers: [{name: c, image: x}]}}\n"},
 	{name: "empty-file", ext: ".yaml", content: ""},
 	{name: "json-configmap", ext: ".json", content: "{\"apiVersion\": \"v1\", \"kind\": \"ConfigMap\", \"metadata\": {\"name\": \"cmj\", \"namespace\": \"ns1\"}, \"data\": {\"k\": \"v\"}}\n"},
 }
@@ -358,7 +365,7 @@ func Run(r *fw.Run) {
 			cs.Place = append(cs.Place, pl)
 		}
 		if r.Quick() && n == 2 {
-			c.Stride(2)
+			c.Stride(6)
 		}
 		var js []string
 		for k, ji := range cs.Junk {
